@@ -388,21 +388,22 @@ class Functional(object):
         self.name, self.core, self.nlead, self.run, self.iterative = name, core, nlead, run, iterative
 
 
-def _run_rootfinder(method):
+def _run_rootfinder(method, more=None):
     def run(built, d, dtype, extra):
         from xitorch.optimize import rootfinder
         y0 = torch.zeros(d, dtype=dtype)
         opts = dict(f_tol=1e-11, x_tol=1e-11, maxiter=200) if method != "default" else {}
+        opts.update(more or {})
         kw = {} if method == "default" else {"method": method}
         return rootfinder(built.fcn, y0, params=built.params, **kw, **opts)
     return run
 
 
-def _run_equilibrium(method):
+def _run_equilibrium(method, more=None):
     def run(built, d, dtype, extra):
         from xitorch.optimize import equilibrium
         y0 = torch.zeros(d, dtype=dtype)
-        return equilibrium(built.fcn, y0, params=built.params, method=method, f_tol=1e-11, x_tol=1e-11, maxiter=300)
+        return equilibrium(built.fcn, y0, params=built.params, method=method, f_tol=1e-11, x_tol=1e-11, maxiter=300, **(more or {}))
     return run
 
 
@@ -481,6 +482,14 @@ FUNCTIONALS = {
     "rootfinder:broyden1": Functional("rootfinder:broyden1", core_root, 1, _run_rootfinder("broyden1"), True),
     "rootfinder:newton": Functional("rootfinder:newton", core_root, 1, _run_rootfinder("newton"), True),
     "rootfinder:default": Functional("rootfinder:default", core_root, 1, _run_rootfinder("default"), True),
+    # method options as a dimension of their own (each option can switch on code that is otherwise never run)
+    "rootfinder:broyden1:max_rank": Functional("rootfinder:broyden1:max_rank", core_root, 1, _run_rootfinder("broyden1", {"max_rank": 3}), True),
+    "rootfinder:broyden2:max_rank_nols": Functional("rootfinder:broyden2:max_rank_nols", core_root, 1,
+                                                   _run_rootfinder("broyden2", {"max_rank": 2, "line_search": False}), True),
+    "rootfinder:linearmixing": Functional("rootfinder:linearmixing", core_root, 1, _run_rootfinder("linearmixing", {"alpha": -0.8}), True),
+    "equilibrium:anderson_acc:msize": Functional("equilibrium:anderson_acc:msize", core_equil, 1,
+                                                 _run_equilibrium("anderson_acc", {"msize": 2, "beta": 0.8}), True),
+    "equilibrium:broyden1:max_rank": Functional("equilibrium:broyden1:max_rank", core_equil, 1, _run_equilibrium("broyden1", {"max_rank": 3}), True),
     "equilibrium:anderson_acc": Functional("equilibrium:anderson_acc", core_equil, 1, _run_equilibrium("anderson_acc"), True),
     "equilibrium:broyden2": Functional("equilibrium:broyden2", core_equil, 1, _run_equilibrium("broyden2"), True),
     "minimize:broyden1": Functional("minimize:broyden1", core_min, 1, _run_minimize("broyden1"), True),
